@@ -352,6 +352,26 @@ async fn mbtiles_lookup_out_of_grid(a: &[String]) -> Result<bool> {
 	Ok(false)
 }
 
+// C19/C11: a vector tile whose feature refers to a key/value position beyond the tables (arbitrary bytes decode to this); filtering or
+// mapping the layer's properties (what vectortiles_update_properties does with every tile of the named layer) must return an error
+fn vector_tile_bad_tag_filter(a: &[String]) -> Result<bool> {
+	let k: u8 = arg(a, 0);
+	let feature: Vec<u8> = vec![0x12, 0x02, k, 0x00, 0x18, 0x01, 0x22, 0x03, 0x09, 0x02, 0x02];      // tags [k, 0]
+	let mut layer: Vec<u8> = vec![0x0a, 0x01, b'l', 0x12, feature.len() as u8];
+	layer.extend(&feature);
+	layer.extend([0x1a, 0x01, b'a']);                      // keys: a
+	layer.extend([0x22, 0x03, 0x0a, 0x01, b'x']);          // values: "x"
+	let mut tile: Vec<u8> = vec![0x1a, layer.len() as u8];
+	tile.extend(&layer);
+	let mut vt0 = versatiles_geometry::vector_tile::VectorTile::from_blob(&Blob::from(tile.clone()))?;
+	let mut vt = versatiles_geometry::vector_tile::VectorTile::from_blob(&Blob::from(tile))?;
+	let r1 = vt0.layers[0].map_properties(|p| p);
+	println!("map_properties -> {}", if r1.is_ok() { "Ok" } else { "Err" });
+	let r2 = vt.layers[0].filter_map_properties(|p| Some(p));
+	println!("filter_map_properties -> {}", if r2.is_ok() { "Ok" } else { "Err" });
+	Ok(false)
+}
+
 fn main() -> Result<()> {
 	let args: Vec<String> = std::env::args().skip(1).collect();
 	if args.is_empty() { eprintln!("usage: verif_replay <case> args…"); std::process::exit(2); }
@@ -368,6 +388,7 @@ fn main() -> Result<()> {
 			"versatiles_short_tile_index" => rt.block_on(versatiles_short_tile_index(rest)),
 			"pmtiles_entry_offset_overflow" => rt.block_on(pmtiles_entry_offset_overflow(rest)),
 			"svarint_roundtrip" => svarint_roundtrip(rest),
+			"vector_tile_bad_tag_filter" => vector_tile_bad_tag_filter(rest),
 			"mbtiles_lookup_out_of_grid" => rt.block_on(mbtiles_lookup_out_of_grid(rest)),
 			"versatiles_stream_beyond_coverage" => rt.block_on(versatiles_stream_beyond_coverage(rest)),
 			"pmtiles_run_coverage" => rt.block_on(pmtiles_run_coverage(rest)),
